@@ -47,7 +47,7 @@ PROBES = ['{e.__class__}', '{0}', '{url!r}', '{e.body.__class__.__mro__}', '{e.t
           '<!--', '--><b>', '<![CDATA[', '\\', '\\x3cb\\x3e', '%3Cb%3E', '&amp;lt;', 'javascript:alert(1)', '<b' + 'a' * 1200 + '>', '<script>x</script>' + 'a' * 1200, 'a' * 1100 + '<b>"', '<i>' * 300]
 POSITIONS = ['path', 'query', 'host', 'xfhost', 'xfproto', 'requri', 'rawuri']     # requri / rawuri: the raw request target as some
 #                                                    servers record it in environ['REQUEST_URI'] / environ['RAW_URI']
-KINDS = ['404', '405', '400', '500', 'critical', '400path', '500data', 'criticaldm', '500datasetup']     # criticaldm: the last-resort page of an application with a domain_map
+KINDS = ['404', '405', '400', '500', 'critical', '400path', '500data', 'criticaldm', '500datasetup', '404wild', '404static']      # 404wild: the path fails BELOW a wildcard that took the payload; 404static: static_file() misses a file     # criticaldm: the last-resort page of an application with a domain_map
 
 
 # 'rawpath': PATH_INFO is the payload itself, WITHOUT a leading slash (a raw client / a server that does not normalise)
@@ -178,10 +178,15 @@ class Apps:
             raise ValueError('invalid literal: %r / %s' % (app4.request.query_string, app4.request.path))
         app4.route('/d/<x:path>', 'GET', crashdata4)
         self.app4 = app4
+        app.route('/w/<x>/profile', 'GET', crash)
+        # static files are served by the default application (static_file() works on the module-level request)
+        app5 = om.default_app()
+        app5.route('/static/<name:path>', 'GET', lambda name: om.static_file(name, os.path.dirname(HERE)), overwrite=True)
+        self.app5 = app5
 
     def request(self, kind, pos, payload, as_json):
-        base = {'404': '/nf/', '405': '/m/', '400': '/b/', '500': '/c/', 'critical': '/nf/', 'criticaldm': '/nf/', '500datasetup': '/d/', '400path': '/nf/\xe9', '500data': '/d/'}[kind]
-        path = base + (payload if pos == 'path' else 'a')
+        base = {'404': '/nf/', '405': '/m/', '400': '/b/', '500': '/c/', 'critical': '/nf/', 'criticaldm': '/nf/', '500datasetup': '/d/', '404wild': '/w/', '404static': '/static/', '400path': '/nf/\xe9', '500data': '/d/'}[kind]
+        path = base + (payload if pos == 'path' else 'a') + ('/nope' if kind == '404wild' else '')
         if pos == 'rawpath':
             path = payload
         qs = ('q=' + payload) if pos == 'query' else 'q=a'
@@ -201,11 +206,11 @@ class Apps:
         env = wsgi.environ(method, path, qs=qs, headers=headers, **kw)
         if pos in ('requri', 'rawuri'):
             env['REQUEST_URI' if pos == 'requri' else 'RAW_URI'] = base + payload + '?q=' + payload
-        return wsgi.call({'critical': self.app2, 'criticaldm': self.app3, '500datasetup': self.app4}.get(kind, self.app), env)
+        return wsgi.call({'critical': self.app2, 'criticaldm': self.app3, '500datasetup': self.app4, '404static': self.app5}.get(kind, self.app), env)
 
 
 def expected_status(kind):
-    return {'404': 404, '405': 405, '400': 400, '500': 500, 'critical': 500, 'criticaldm': 500, '500datasetup': 500, '400path': 400, '500data': 500}[kind]
+    return {'404': 404, '405': 405, '400': 400, '500': 500, 'critical': 500, 'criticaldm': 500, '500datasetup': 500, '404wild': 404, '404static': 404, '400path': 400, '500data': 500}[kind]
 
 
 def shown(pos, payload):
@@ -220,7 +225,9 @@ def judge(apps, kind, pos, payload, as_json, baseline, core_alphabet=True):
         return 'wsgi', probs[0]
     if c.code != expected_status(kind) and not core_alphabet:
         return None     # a seed-extension character changed the routing of the request: not the error kind under test
-    if c.code != expected_status(kind):
+    if kind == '404static' and c.code == 403:
+        pass            # static_file refuses some names (backslashes, dot-dot) with 403: the same framework-generated page
+    elif c.code != expected_status(kind):
         return 'status', f'status {c.status}, expected {expected_status(kind)}'
     body = c.body.decode('utf8', 'replace')
     ctype = c.header('Content-Type', '')
